@@ -158,6 +158,17 @@ func VerifC09DecodeKitty() {
 	zzverif.Assert(k.ShiftedCode == verifIf(haveShifted || haveBase, shifted), "kitty-shifted-code")
 	zzverif.Assert(k.BaseLayoutCode == verifIf(haveBase, base), "kitty-base-layout-code")
 	zzverif.Assert(k.Modifiers == wantMods, "kitty-modifiers")
+	// the named modifiers are the protocol's bits (kitty keyboard protocol: shift 1, alt 2,
+	// ctrl 4, super 8, hyper 16, meta 32, caps lock 64, num lock 128), written as literals
+	wire := 0
+	if len(seq.Parameters) > 1 {
+		wire = modsField - 1
+	}
+	named := (k.Modifiers&ModShift != 0) == (wire&1 != 0) && (k.Modifiers&ModAlt != 0) == (wire&2 != 0) &&
+		(k.Modifiers&ModCtrl != 0) == (wire&4 != 0) && (k.Modifiers&ModSuper != 0) == (wire&8 != 0) &&
+		(k.Modifiers&ModHyper != 0) == (wire&16 != 0) && (k.Modifiers&ModMeta != 0) == (wire&32 != 0) &&
+		(k.Modifiers&ModCapsLock != 0) == (wire&64 != 0) && (k.Modifiers&ModNumLock != 0) == (wire&128 != 0)
+	zzverif.Assert(named, "kitty-modifier-names-are-the-protocol-bits")
 	zzverif.Assert(k.EventType == wantEvent, "kitty-event-type")
 	if nText > 0 {
 		zzverif.Assert(k.Text == want, "kitty-text")
